@@ -33,6 +33,48 @@ impl Src for In {
 pub struct In {
     pub vals: Vec<Vec<u8>>,
     pub pos: usize,
+    /// grid mode (native witness search): every draw picks from a table of boundary values
+    pub grid: bool,
+    pub idx: Vec<usize>,
+    pub radix: Vec<usize>,
+    pub drawn: Vec<Vec<u8>>,
+}
+#[cfg(verif_replay)]
+pub const GRID_I32: [i32; 19] = [0, 1, -1, 2, -2, 3, -3, 5, 7, 32767, -32767, 32768, 46341, 65536, -65536,
+    i32::MAX, i32::MIN, i32::MAX - 1, i32::MIN + 1];
+#[cfg(verif_replay)]
+pub const GRID_U32: [u32; 9] = [0, 1, 2, 3, 7, 65536, 0x7fff_ffff, 0x8000_0000, u32::MAX];
+#[cfg(verif_replay)]
+pub const GRID_F32: [f32; 9] = [0.0, -0.0, 1.0, -1.5, 0.5, 1.0e10, f32::NAN, f32::INFINITY, 16777217.0];
+#[cfg(verif_replay)]
+pub const GRID_CHAR: [char; 6] = ['a', '(', ')', '\n', '"', '\u{3bb}'];
+#[cfg(verif_replay)]
+thread_local! {
+    /// (radix per draw, bytes per draw) of the current grid run -- survives a panic inside the harness
+    pub static GRID_LOG: std::cell::RefCell<(Vec<usize>, Vec<Vec<u8>>)> = std::cell::RefCell::new((Vec::new(), Vec::new()));
+}
+#[cfg(verif_replay)]
+impl In {
+    fn note(&mut self, bytes: Vec<u8>) {
+        GRID_LOG.with(|l| l.borrow_mut().1.push(bytes.clone()));
+        self.drawn.push(bytes);
+    }
+    pub fn replay(vals: Vec<Vec<u8>>) -> In {
+        In { vals, pos: 0, grid: false, idx: Vec::new(), radix: Vec::new(), drawn: Vec::new() }
+    }
+    fn pick(&mut self, radix: usize) -> usize {
+        if self.pos >= self.idx.len() {
+            self.idx.push(0);
+        }
+        if self.pos >= self.radix.len() {
+            self.radix.push(radix);
+        }
+        self.radix[self.pos] = radix;
+        GRID_LOG.with(|l| l.borrow_mut().0.push(radix));
+        let k = self.idx[self.pos] % radix;
+        self.pos += 1;
+        k
+    }
 }
 #[cfg(verif_replay)]
 impl Src for In {
@@ -43,12 +85,28 @@ impl Src for In {
         for i in 0..n.min(v.len()) { out[i] = v[i]; }
         out
     }
-    fn u8(&mut self) -> u8 { self.bytes(1)[0] }
-    fn bool(&mut self) -> bool { self.bytes(1)[0] != 0 }
-    fn i32(&mut self) -> i32 { let b = self.bytes(4); i32::from_le_bytes([b[0], b[1], b[2], b[3]]) }
-    fn u32(&mut self) -> u32 { let b = self.bytes(4); u32::from_le_bytes([b[0], b[1], b[2], b[3]]) }
-    fn f32(&mut self) -> f32 { let b = self.bytes(4); f32::from_le_bytes([b[0], b[1], b[2], b[3]]) }
+    fn u8(&mut self) -> u8 {
+        if self.grid { let v = self.pick(6) as u8; self.note(vec![v]); return v; }
+        self.bytes(1)[0]
+    }
+    fn bool(&mut self) -> bool {
+        if self.grid { let v = self.pick(2) == 1; self.note(vec![v as u8]); return v; }
+        self.bytes(1)[0] != 0
+    }
+    fn i32(&mut self) -> i32 {
+        if self.grid { let v = GRID_I32[self.pick(GRID_I32.len())]; self.note(v.to_le_bytes().to_vec()); return v; }
+        let b = self.bytes(4); i32::from_le_bytes([b[0], b[1], b[2], b[3]])
+    }
+    fn u32(&mut self) -> u32 {
+        if self.grid { let v = GRID_U32[self.pick(GRID_U32.len())]; self.note(v.to_le_bytes().to_vec()); return v; }
+        let b = self.bytes(4); u32::from_le_bytes([b[0], b[1], b[2], b[3]])
+    }
+    fn f32(&mut self) -> f32 {
+        if self.grid { let v = GRID_F32[self.pick(GRID_F32.len())]; self.note(v.to_le_bytes().to_vec()); return v; }
+        let b = self.bytes(4); f32::from_le_bytes([b[0], b[1], b[2], b[3]])
+    }
     fn char(&mut self) -> char {
+        if self.grid { let v = GRID_CHAR[self.pick(GRID_CHAR.len())]; self.note((v as u32).to_le_bytes().to_vec()); return v; }
         let b = self.bytes(4);
         char::from_u32(u32::from_le_bytes([b[0], b[1], b[2], b[3]])).unwrap_or('\u{fffd}')
     }
